@@ -49,7 +49,7 @@ CLAIMS = {
     },
     "C14": {
         "text": BMC + "NumOrd in both directions between UBig/IBig of 0..3 words (32-bit words: 0..5) and every value of the 12 primitive integer types, and between UBig and IBig; NumHash byte streams of UBig/IBig and of the primitive u64/i64 (thorough u128/i128) of the same value are identical; AbsOrd/AbsEq mixed forms (with C05).",
-        "note": TRUST + "NumOrd against f32/f64 is decided on a 7 x 9 grid of LITERAL integers and floats only (regression points for the repaired zero-vs-small-float defect). Outside: comparison with symbolic f32/f64 (data-dependent shift), FBig/RBig pairs.",
+        "note": TRUST + "NumOrd against f32/f64 in both directions for EVERY one-word integer of either sign (IBig and UBig) against each of 36 LITERAL floats (fractions, halves, 2^24, 2^63, 2^64, tiny values, +-0, +-infinity, NaN), the expected order computed exactly in i128; plus a 7 x 9 grid of literal pairs. Outside: comparison with symbolic f32/f64 (data-dependent shift), multi-word integers against floats, FBig/RBig pairs.",
     },
     "C15": {
         "text": BMC + "Differential and oracle-based agreement of call forms: the five ownership/assignment forms of + - * & | ^ and the forms of / % div_rem (C01/C02/C09 harnesses each instantiate every form against the same oracle), mixed UBig/IBig forms, primitive-operand forms, clone and clone_from onto every previous shape (equal and independent), x op= &x.clone() sequences, Reduced forms, and FBig << / <<= / >> / >>= on symbolic (significand, exponent, amount).",
